@@ -848,13 +848,14 @@ theorem loopygen_sound_partial_any_schedule (g : LGraph) (outputs : List (String
 /-! ## the full statement, and how much of it is proved
 
   `LoopygenSound F`: soundness of the statement generator on the graphs satisfying `F`.  The TARGET is
-  `F := fun _ _ => True` up to the two representation issues below; PROVED is the reduction-free
-  fragment (`loopygen_sound_fragment`, a restatement of `loopygen_sound_partial_any_schedule`).
-  What the fragment still excludes, and why:
-  * reductions (always materialised with hoisted bounds in this environment: the store carries
-    per-iteration `lets`, a 0-d result separate bound statements) — the model emits them and is
-    tied to the real kernels like everything else; their soundness proof (alpha-renaming of the
-    reduction variables, the replaced bounds, `bindLets`) is not done;
+  `F := fun _ _ => True` up to the representation issues below; PROVED here is the reduction-free
+  fragment (`loopygen_sound_fragment`, a restatement of `loopygen_sound_partial_any_schedule`), and in
+  `PtProofs.C01GenRedChecks` the fragment WITH reductions (`loopygen_sound_fragmentR`: chains of
+  reductions with constant bounds at the root of an index lambda, every bound hoisted — per-iteration
+  `lets` of the store, or separate bound statements for a 0-d result).
+  What the fragments still exclude, and why:
+  * reductions whose bounds are not integer constants (data-dependent bounds, e.g. CSR products):
+    the hoisted bound is an expression over the bindings, evaluated per iteration;
   * Boolean constants: the generator emits `True` as `1`; the exact value domain keeps `b true`
     and `i 1` apart, so the statement needs values "up to the integer value of Booleans";
   * empty results: the generator emits a no-op and the array is never written; the allocation
